@@ -173,6 +173,23 @@ pub fn enumerate_material_kk(wk: u8, only_bk: u8, men: &[Man], f: &mut dyn FnMut
     }
 }
 
+/// F-CORNER: both kings fixed (`wk`, `bk`), `men` on all distinct squares with `men[0]` on `first_sq` (one shard),
+/// both sides to move, and the colour-mirrored twin of each position.  Fixing the kings makes three further men
+/// affordable: cornered kings without quiet moves, protected checkers, pinned defenders.
+pub fn enumerate_corner(wk: u8, bk: u8, men: &[Man], first_sq: u8, f: &mut dyn FnMut(&Pos)) {
+    if first_sq == wk || first_sq == bk || men.is_empty() || !pawn_ok(men[0], first_sq) {
+        return;
+    }
+    let mut p = Pos::empty();
+    p.board[wk as usize] = Some((Color::W, Kind::K));
+    p.board[bk as usize] = Some((Color::B, Kind::K));
+    p.board[first_sq as usize] = Some(men[0]);
+    place_men(&mut p, men, 1, first_sq + 1, &mut |q: &Pos| {
+        f(q);
+        f(&q.mirror());
+    });
+}
+
 fn place_men(p: &mut Pos, men: &[Man], i: usize, min_sq: u8, f: &mut dyn FnMut(&Pos)) {
     if i == men.len() {
         completions(p, f);
